@@ -10,6 +10,7 @@ import (
 	"zvh/engines/plan"
 	"zvh/engines/heap"
 	"zvh/engines/robust"
+	"zvh/engines/report"
 	"zvh/engines/seq"
 	"zvh/engines/store"
 )
@@ -19,6 +20,7 @@ func init() {
 		ownsReplay[n] = true
 	}
 	engines["seq"] = seq.Engine{}
+	engines["report"] = report.Engine{}
 	engines["robust"] = robust.Engine{}
 	engines["heap"] = heap.Engine{}
 	engines["plan"] = plan.Engine{}
